@@ -1734,7 +1734,20 @@ _archive_write_disk_finish_entry(struct archive *_a)
 	if (a->fd < 0) {
 		/* There's no file. */
 	} else if (a->filesize < 0) {
-		/* File size is unknown, so we can't set the size. */
+		/*
+		 * File size is unknown: the file ends where the data ended.
+		 * Zero bytes skipped at the end (ARCHIVE_EXTRACT_SPARSE)
+		 * have not reached the file yet.
+		 */
+#if HAVE_FTRUNCATE
+		if (a->offset > a->fd_offset &&
+		    ftruncate(a->fd, a->offset) == -1) {
+			archive_set_error(&a->archive, errno,
+			    "File size could not be restored");
+			close_file_descriptor(a);
+			return (ARCHIVE_FAILED);
+		}
+#endif
 	} else if (a->fd_offset == a->filesize) {
 		/* Last write ended at exactly the filesize; we're done. */
 		/* Hopefully, this is the common case. */
